@@ -39,3 +39,9 @@ Definition fresh (w : world) (t : nat) : Prop :=
   | LsLoad _ l | LsCasAcq _ l _ | LsCasEnq _ l _ => clr l = 0 /\ zta l = lt_zero_to_acquire (lt_of (match t_pc (get (begin_op w t) t) with LsLoad m _ | LsCasAcq m _ _ | LsCasEnq m _ _ => m | _ => W end))
   | _ => False
   end.
+
+(* a thread that is (or is about to be) on the mutex queue or on a releaser's wake list:
+   inside nsync_mu_lock_slow_, between its enqueue and its next attempt *)
+Definition in_lock_slow_queued (p : pc) : bool :=
+  match p with LsRelLoad _ _ | LsRelCas _ _ _ | LsWaitLoad _ _ | LsSemP _ _ => true | _ => false end.
+Definition is_wake_pc (p : pc) : bool := match p with UsWakeStore _ _ | UsWakeV _ _ _ => true | _ => false end.
